@@ -221,6 +221,29 @@ def mutations(ids, full=True):
             yield bad
 
 
+def connacks():
+    for sp in (0, 1):
+        for rcode in range(256):
+            yield bytes([0x20, 0x02, sp, rcode])
+
+
+def pairs(ids):
+    """Two- and three-frame inputs: effects that need an earlier frame of the same input."""
+    for b0 in range(0x30, 0x40):
+        for mid in (9, 12):
+            body = b'\x00\x01q' + bytes([0, mid]) + b'z'
+            pub = bytes([b0, len(body)]) + body
+            yield pub + rc.enc_ack('PUBREL', mid)
+            yield pub + pub + rc.enc_ack('PUBREL', mid) + rc.enc_ack('PUBREL', mid)
+    for i in ids:
+        for a in ('PUBACK', 'PUBREC', 'PUBCOMP'):
+            for b in ('PUBACK', 'PUBREC', 'PUBCOMP'):
+                yield rc.enc_ack(a, i) + rc.enc_ack(b, i)
+        yield rc.enc_suback(i, [0]) + rc.enc_suback(i, [2])
+        yield rc.enc_ack('UNSUBACK', i) + rc.enc_ack('UNSUBACK', i)
+        yield rc.enc_ack('PUBREL', i) + rc.enc_ack('PUBREL', i)
+
+
 def _work(task):
     profile, mode, base, persist, inputs = task
     viol, outcomes, n = {}, set(), 0
@@ -245,11 +268,15 @@ def plan(ctx):
     fam_s4 = list(short_strings(ALPHA16, 4))
     fam_s3b = list(short_strings(ALPHA16b, 3))
     fam_s5 = None if q else list(short_strings(ALPHA16[:11] + [0x00], 5))
+    fam_ck = list(connacks())
+    fam_pairs = list(pairs(ids))
     for profile in ('pub', 'sub', 'pubsub'):
         for mode in ('sync', 'async'):
             for base in ('fresh', 'connecting', 'idle', 'busy', 'busy-v31-persist'):
                 persist = base.endswith('persist')
-                fams = [('mut', fam_mut), ('s3', fam_s3)]
+                fams = [('mut', fam_mut), ('s3', fam_s3), ('pairs', fam_pairs)]
+                if base in ('connecting', 'idle'):
+                    fams.append(('connacks', fam_ck))
                 if base in ('busy', 'connecting') or not q:
                     fams.append(('fb', fam_fb))
                     fams.append(('s3b', fam_s3b))
